@@ -32,6 +32,9 @@
 //!  D6 configurations with min > max, sub-second bounds, or min > u32::MAX s are outside the
 //!     quantifier and are never generated.
 //!  D7 elapsed time is `now − t0` saturating at 0 (only the threaded stress can pass an older `now`).
+//!  D8 a key for which the last thing received was an upstream message whose treatment is a don't-care
+//!     (`upstream.rs` U1–U3, or an ambiguity that could not be resolved) is *opaque*: nothing is judged
+//!     for it until the next stored insert or clear (counted `m1/gets_dont_care`).
 
 use serde_json::{json, Value};
 
